@@ -1,5 +1,7 @@
 // @unit c15_settings property=C15 attach=verif-c15/src/lib.rs
-// @h c15_settings_crate_plain tier=off bounded=enumerated-literal-arguments
+// @h c15_settings_crate_plain tier=off
+// @h c15_settings_with_crate_args_plain tier=both bounded=enumerated-literal-arguments
+// @h c15_settings_with_crate_args_renamed tier=both bounded=enumerated-literal-arguments bounded=enumerated-literal-arguments
 // @h c15_settings_crate_renamed tier=off bounded=enumerated-literal-arguments
 // @h c15_settings_flags tier=both bounded=enumerated-literal-arguments
 // @canary canary_c15_settings
@@ -93,6 +95,85 @@ stubs! {
         core::mem::forget(s);
         core::mem::forget(args);
     }
+}
+
+// ---- P5 through the CALLEE'S INTERFACE: with_crate is replaced by a stub that records its
+// arguments (modular reasoning: the slice is checked against with_crate's signature --
+// `crate_name` is the crate being configured, `rename` its new name -- not its body, whose
+// B-tree read-back does not terminate in CBMC).
+static mut REC_CALLS: u8 = 0;
+static mut REC_NAME_IS_ORIG: bool = false;
+static mut REC_RENAME_IS_NEW: bool = false;
+static mut REC_RENAME_NONE: bool = false;
+static mut REC_KIND: u8 = 0;
+
+fn stub_with_crate<'a, S1: ToString>(
+    s: &'a mut TypeSpaceSettings,
+    crate_name: S1,
+    version: CrateVers,
+    rename: Option<&String>,
+) -> &'a mut TypeSpaceSettings {
+    let name = crate_name.to_string();
+    unsafe {
+        REC_CALLS += 1;
+        REC_NAME_IS_ORIG = name == "orig";
+        REC_RENAME_IS_NEW = rename.map_or(false, |r| r == "new");
+        REC_RENAME_NONE = rename.is_none();
+        REC_KIND = match version {
+            CrateVers::Any => 1,
+            CrateVers::Never => 2,
+            CrateVers::Version(_) => 3,
+        };
+    }
+    core::mem::forget(name);
+    s
+}
+
+fn check_with_crate_args(rename: Option<&str>, never: bool) {
+    let mut args = base_args();
+    args.crates.push(CrateSpec {
+        name: String::from("orig"),
+        version: if never { CrateVers::Never } else { CrateVers::Any },
+        rename: rename.map(String::from),
+    });
+    let s = verif_slice_build_settings(&args);
+    unsafe {
+        kani::assert(REC_CALLS == 1, "[C15/P5] --crate does not configure exactly one crate");
+        kani::assert(
+            REC_NAME_IS_ORIG,
+            "[C15/P5] with_crate is not given the crate the specifier names (the one schemas refer to) as crate_name",
+        );
+        kani::assert(
+            REC_KIND == if never { 2 } else { 1 },
+            "[C15/P5] with_crate is not given the specifier's version",
+        );
+        if rename.is_some() {
+            kani::assert(
+                REC_RENAME_IS_NEW,
+                "[C15/P5] with_crate is not given the specifier's rename as the crate's new name",
+            );
+        } else {
+            kani::assert(REC_RENAME_NONE, "[C15/P5] with_crate is given a rename nobody asked for");
+        }
+    }
+    core::mem::forget(s);
+    core::mem::forget(args);
+}
+
+#[kani::proof]
+#[kani::unwind(16)]
+#[kani::stub(typify_impl::MapType::new, typify_impl::verif_c15_access::stub_map_type_new)]
+#[kani::stub(typify_impl::TypeSpaceSettings::with_crate, stub_with_crate)]
+fn c15_settings_with_crate_args_plain() {
+    check_with_crate_args(None, false)
+}
+
+#[kani::proof]
+#[kani::unwind(16)]
+#[kani::stub(typify_impl::MapType::new, typify_impl::verif_c15_access::stub_map_type_new)]
+#[kani::stub(typify_impl::TypeSpaceSettings::with_crate, stub_with_crate)]
+fn c15_settings_with_crate_args_renamed() {
+    check_with_crate_args(Some("new"), true)
 }
 
 stubs! {
